@@ -153,6 +153,32 @@ fn gen_value(src: &mut Src, kind: Kind) -> f64 {
     }
 }
 
+/// One update through local handle `li` for tuple `t`, mirrored in the model.
+fn local_update(w: &mut World, kind: Kind, li: usize, t: &str, v: f64) {
+    let t = t.to_string();
+    // binding: a vector local binds to the child that is current when the tuple is first used
+    let has = w.locals[li].as_ref().unwrap().pend.contains_key(&t);
+    let ci = if has {
+        w.locals[li].as_ref().unwrap().pend[&t].child
+    } else if kind.is_vec() {
+        w.child_for(&t)
+    } else {
+        0
+    };
+    let l = w.locals[li].as_mut().unwrap();
+    match &mut l.real {
+        Local::C(c) => c.inc_by(v),
+        Local::IC(c) => c.inc_by(v as u64),
+        Local::H(c) => c.observe(v),
+        Local::CV(c) => c.with_label_values(&[&t]).inc_by(v),
+        Local::ICV(c) => c.with_label_values(&[&t]).inc_by(v as u64),
+        Local::HV(c) => c.with_label_values(&[&t]).observe(v),
+    }
+    let p = l.pend.entry(t.clone()).or_insert(Pending { child: ci, vals: vec![], sum: 0.0 });
+    p.vals.push(v);
+    p.sum += v;
+}
+
 impl Property for C12 {
     fn id(&self) -> &'static str {
         "C12"
@@ -212,6 +238,7 @@ impl Property for C12 {
         let mut log: Vec<String> = vec![];
         let mut interesting = false;
         let mut locals_updated: Vec<bool> = vec![];
+        let mut burst_done = false;
         let mut shared_reset_happened = false;
 
         for step in 0..nops {
@@ -246,29 +273,20 @@ impl Property for C12 {
                 2..=6 => {
                     if let Some(li) = pick_live(src) {
                         let v = gen_value(src, kind);
-                        // binding: a vector local binds to the child that is current when the tuple is first used
-                        let has = w.locals[li].as_ref().unwrap().pend.contains_key(&t);
-                        let ci = if has {
-                            w.locals[li].as_ref().unwrap().pend[&t].child
-                        } else if kind.is_vec() {
-                            w.child_for(&t)
-                        } else {
-                            0
-                        };
-                        let l = w.locals[li].as_mut().unwrap();
-                        match &mut l.real {
-                            Local::C(c) => c.inc_by(v),
-                            Local::IC(c) => c.inc_by(v as u64),
-                            Local::H(c) => c.observe(v),
-                            Local::CV(c) => c.with_label_values(&[&t]).inc_by(v),
-                            Local::ICV(c) => c.with_label_values(&[&t]).inc_by(v as u64),
-                            Local::HV(c) => c.with_label_values(&[&t]).observe(v),
-                        }
-                        let p = l.pend.entry(t.clone()).or_insert(Pending { child: ci, vals: vec![], sum: 0.0 });
-                        p.vals.push(v);
-                        p.sum += v;
+                        local_update(&mut w, kind, li, &t, v);
                         locals_updated[li] = true;
                         log.push(format!("L{}[{:?}]+={}", li, t, show_f64(v)));
+                        // once per case (vector kinds, about 5% of them): the same local vector then touches 260-500 further tuples, one
+                        // update each (the library imposes no limit on the number of children a local vector caches)
+                        if kind.is_vec() && !burst_done && src.chance(2) {
+                            burst_done = true;
+                            let n = 260 + src.below(240);
+                            for k in 0..n {
+                                local_update(&mut w, kind, li, &format!("#{}", (k * 7919 + 13) % 10007), 1.0);
+                            }
+                            rep.class("local-vector-touches-260-500-tuples");
+                            log.push(format!("L{}[#0..#{}]+=1", li, n));
+                        }
                     }
                 }
                 // ---- flush (sometimes twice)
